@@ -75,6 +75,9 @@ pub struct Reach {
     pub min_bad_depth: Option<usize>,
     /// true if the layer sequence reached a fixpoint (no new states) within the explored depth
     pub fixpoint: bool,
+    /// initial states that start at least one constraint-satisfying execution (where an init expression reads an
+    /// input, the step-0 input is tied to the initial state: layers[0] also holds the others)
+    pub init_ok: FxHashSet<u64>,
     pub all_reached: FxHashSet<u64>,
     /// is the conjunction of constraints satisfiable at every explored depth < first dead end
     pub constraints_sat_upto: usize,
@@ -138,6 +141,7 @@ pub fn explore(ctx: &Context, sys: &TransitionSystem, cfg: &ReachCfg) -> Result<
         bad_at: vec![],
         min_bad_depth: None,
         fixpoint: false,
+        init_ok: Default::default(),
         all_reached: Default::default(),
         constraints_sat_upto: 0,
         step_memo: Default::default(),
@@ -200,6 +204,9 @@ pub fn explore(ctx: &Context, sys: &TransitionSystem, cfg: &ReachCfg) -> Result<
                 let (ok, b, succ) = step(ctx, sys, &mut r, *s, i)?;
                 if !ok {
                     continue;
+                }
+                if depth == 0 {
+                    r.init_ok.insert(*s);
                 }
                 any_constraint_sat = true;
                 for (k, x) in b.iter().enumerate() {
